@@ -42,7 +42,7 @@ theorem top_level_conventions (cls : QClass) (d : Option Dialect) (ak : Bool) :
 theorem nested_query_ctx (c : Ctx) (h : Ctx.Governed c) (fl : QFlags) (ns : Bool) :
     (queryCtx c fl ns).q = c.q ∧ (queryCtx c fl ns).aq = c.aq ∧ (queryCtx c fl ns).sq = c.sq ∧
     (queryCtx c fl ns).asKw = c.asKw ∧ (queryCtx c fl ns).dia = c.dia := by
-  have hg : Ctx.Governed (if fl.cls.fetchFamily then { c with groupbyAlias := false } else c) := by
+  have hg : Ctx.Governed (if c.groupbyAliasSet then c else { c with groupbyAlias := !fl.cls.fetchFamily, groupbyAliasSet := true }) := by
     split <;> exact h
   simp only [queryCtx, dialectCtx]
   rw [setDefaults_outer_wins _ hg]
